@@ -40,7 +40,15 @@ ASSUME = [
 ]
 
 
+KEYKIND = {"l": "listener-key", "i": "integer-key", "s": "string-key", "k": "const-string-key"}
+
+
 class Prop:
+    # known finding G2: a listener key of a table with more than one bucket is not found after the load.  The stage that
+    # exercises the model's prediction of it (`lkey_stage`) tolerates exactly that; everywhere else, and for every other
+    # kind of key, a lost entry is a violation
+    tolerate_listener_key_loss = False
+
     def monitor(self, line, out):
         """trace monitor on one implementation answer: a well-formed write sequence must read back as written.
         Returns None or (why, signature)."""
@@ -50,11 +58,21 @@ class Prop:
         if not archgen.well_formed(written):
             return None
         rb = out.split(" | ", 1)[1]
-        if "!lost" in rb:
-            return "an entry of a loaded hash array is not found under its own key", "roundtrip:lost-key"
+        t = rb.split(" ")
+        lost = sorted(set(KEYKIND.get(x[5:], x[5:]) for x in t if x.startswith("lost:")))
+        if lost and not (self.tolerate_listener_key_loss and lost == ["listener-key"]):
+            return ("an entry of a loaded hash array is not found when its own key is looked up (%s)" % ", ".join(lost),
+                    "roundtrip:lost-key:" + "+".join(lost))
+        rb = " ".join(x[5:] if x.startswith("lost:") else x for x in t)
         if not rb.startswith("ok ") and not (rb == "ok" and not written):
             return "read-back of an intact archive failed: " + rb[:200], "roundtrip:failed-read"
-        got = archgen.parse_items([x for x in rb.split(" ")[1:] if x], selfs=False)
+        if "?missing" in rb:
+            return ("a variable of a loaded ScriptVariableList is not found under its name in the loading dictionary",
+                    "roundtrip:variable-name-lost")
+        try:
+            got = archgen.parse_items([x for x in rb.split(" ")[1:] if x], selfs=False)
+        except (ValueError, IndexError) as e:
+            return "read-back of an intact archive cannot be parsed (%s): %s" % (e, rb[:200]), "roundtrip:unparsable"
         want = archgen.strip_selfs(written)
         if got != want:
             what = first_value_diff(want, got)
@@ -144,8 +162,14 @@ def fixed_cases(reg):
                             (100027, ("i", 12), 100028, ("car", 100006)), (100029, ("s", b""), 100030, ("n",))])),
           ("v", 100031, ("aref", 100018)), ("v", 100032, A(100033, 0, [(100034, ("l", 1), 100035, ("i", 1))])),
           ("v", 100036, A(100037, 0, []))]
+    # named variables (ScriptVariable::Archive) and a ScriptVariableList: names that the loading dictionary has never seen,
+    # a predefined one, a Ref to a variable of the list, an unnamed variable
+    t6 = [("v", 100001, ("i", 7)), ("nv", 100002, b"c10 never seen name", ("ref", 100001)), ("nv", 100003, None, ("s", b"x")),
+          ("vl", 0, 0, 0, [], [(100004, b"alpha", ("i", 1)), (100005, b"beta", ("s", b"z")), (100006, b"gamma", ("ref", 100004)),
+                               (100007, b"self", ("k", b"k")), (100008, b"delta", ("l", 0))]),
+          ("vl", 0, 0, 0, [], []), ("vl", 0, 0, 0, [], [(100009, b"only", ("n",))])]
     cases = []
-    for i, t in enumerate([t1, t2, t3, t4, t5]):
+    for i, t in enumerate([t1, t2, t3, t4, t5, t6]):
         cases.append(("fixed:%d" % i, (1, b"TEST", b"Morfuse test archive"), t))
     return cases
 
@@ -253,6 +277,69 @@ def tables_stage(ctx, exe, reg):
     return {"listeners": len(specs), "insertions": hist["pointers"]}
 
 
+# --------------------------------------------------------------------------------------------
+# hash arrays with listener keys in tables of more than one bucket (known finding G2)
+
+def gen_lkey(rng):
+    """an archive with 1..6 listeners and a hash array of 2..7 entries (1 or 7 buckets) some of whose keys are listeners;
+    the harness gives listener L an address with `address % 7 == L % 6 + 1`, so the writer's walk order and the loss after
+    the load are the same in every process and the model predicts both"""
+    nl = rng.randint(1, 6)
+    items = [(rng.choice(archgen.OBJ), l, b"Listener", [("p", "u8", 0)]) for l in range(1, nl + 1)]
+    nxt = [200000]
+
+    def fresh():
+        nxt[0] += 1
+        return nxt[0]
+    es, used = [], set()
+    for _ in range(rng.randint(2, 7)):
+        r = rng.random()
+        if r < 0.5:
+            k = ("l", rng.randint(1, nl))
+        elif r < 0.8:
+            k = ("i", rng.choice([0, 1, 7, 14, 2 ** 64 - 1, rng.getrandbits(16)]))
+        else:
+            k = ("s", bytes(rng.choice(archgen.TEXT) for _ in range(rng.randint(0, 5))))
+        if k in used:
+            continue
+        used.add(k)
+        es.append((fresh(), k, fresh(), rng.choice([("i", rng.getrandbits(8)), ("s", b"v"), ("l", rng.randint(0, nl)), ("n",)])))
+    arr = ("v", fresh(), ("arr", fresh(), 0, 0, 0, 0, [], es))
+    items.insert(rng.randint(0, len(items)), arr)
+    return (1, b"MFUS", b"lkey"), items
+
+
+def lkey_stage(ctx, exe, reg):
+    """(1) the corpus case of the known finding, through the ordinary monitor: fires on the unchanged tree on every run;
+    (2) generated tables of the same kind through a monitor that tolerates exactly that loss: the model's prediction of
+    which entries are lost must equal what the real code does"""
+    L = b"Listener"
+    known = ((1, b"MFUS", b"known"),
+             [("obj", 1, L, [("p", "u8", 0)]), ("obj", 2, L, [("p", "u8", 0)]),
+              ("v", 100103, ("arr", 100210, 0, 0, 0, 0, [],
+                             [(100211, ("l", 1), 100212, ("s", b"ab")), (100213, ("l", 2), 100214, ("i", 3)),
+                              (100215, ("i", 4), 100216, ("i", 5))]))])
+    dk = archgen.ADiff(ctx, Prop(), exe, AREA)
+    dk.base_timeout = 60
+    c = archgen.canon(exe, reg, [known])[0]
+    bad = dk.run_batch([("known:listener-key-lost", [reg, archgen.arc_line(*c)])])
+    tol = Prop()
+    tol.tolerate_listener_key_loss = True
+    dt = archgen.ADiff(ctx, tol, exe, AREA)
+    dt.base_timeout = 60
+    rng = ctx.rng("lkey")
+    cases = [gen_lkey(rng) for _ in range(60 if ctx.tier == "quick" else 1500)]
+    nlost = 0
+    bad2 = 0
+    for i in range(0, len(cases), 100):
+        fixed = archgen.canon(exe, reg, cases[i:i + 100])
+        bad2 += dt.run_batch([("lkey:%d" % (i + j), [reg, archgen.arc_line(*c)]) for j, c in enumerate(fixed)])
+    ctx.oblige("hash arrays with listener keys in 7-bucket tables: which entries a look-up still finds after the load, real code == "
+               "model (%d tables; the loss itself is the known finding roundtrip:lost-key:listener-key)" % len(cases),
+               bad2 == 0, "%d differing cases" % bad2, reported=True)
+    return {"tables": len(cases), "known_case_fired": bad}
+
+
 def check(ctx):
     prop = Prop()
     d0 = archgen.translate(ctx)
@@ -286,7 +373,7 @@ def check(ctx):
         return d.run_batch([(name, [reg, archgen.arc_line(*c)] + extra) for (name, _, _, extra), c in zip(batch, fixed)])
     for i in range(ncases):
         n = rng.choice([1, 5, 20, 60, 200])
-        items = archgen.gen_case(rng, n, maxstr=300 if rng.random() < 0.9 else 6000)
+        items = archgen.gen_case(rng, n, maxstr=300 if rng.random() < 0.9 else 6000, named=True)
         info = archgen.gen_info(rng)
         nwf += archgen.well_formed(items)
         maxobj = max(maxobj, len(archgen.registered(items)))
@@ -305,6 +392,7 @@ def check(ctx):
     ctx.oblige("correspondence harness/archive.cpp (real Archiver) == Archive model: bytes and read-back of %d write sequences" % d.cases,
                bad == 0, "%d differing cases" % bad, reported=True)
     tstats = tables_stage(ctx, exe, reg)
+    kstats = lkey_stage(ctx, exe, reg)
     s_items = archgen.gen_case(ctx.rng("sample"), 6, nobj=2)
     ctx.samples = [archgen.arc_line(*archgen.canon(exe, reg, [((1, b"MFUS", b"Morfuse Archive"), s_items)])[0])]
     cov = {
@@ -314,7 +402,7 @@ def check(ctx):
                 "(real Listener, two scripted subclasses whose Archive() runs nested calls incl. nested ArchiveObject and self "
                 "pointers), plain and safe pointers before/after/inside their targets, null pointers, position-only objects, "
                 "4% pointers to never-registered objects; distinct by SHA-1 of the lines",
-        "listener_tables": tstats,
+        "listener_tables": tstats, "listener_key_tables": kstats,
         "item_histogram": hist, "well_formed_sequences": nwf, "max_registered_objects": maxobj,
         "model_answer_kinds": d.outkinds, "exhaustive": False,
     }
@@ -339,6 +427,16 @@ def count_kinds(items, hist):
     for it in items:
         if it[0] == "v":
             count_vkinds(it[2], hist)
+            continue
+        if it[0] == "nv":
+            hist["nv"] = hist.get("nv", 0) + 1
+            count_vkinds(it[3], hist)
+            continue
+        if it[0] == "vl":
+            hist["vl"] = hist.get("vl", 0) + 1
+            hist["vl:entries"] = hist.get("vl:entries", 0) + len(it[5])
+            for _, _, val in it[5]:
+                count_vkinds(val, hist)
             continue
         k = it[0] + (":" + it[1] if it[0] == "p" else "")
         if it[0] in ("op", "sp") and it[1] == 0:
